@@ -695,8 +695,12 @@ def oracle(case: dict, obs: list, snap_unused, root: str) -> list:
 # =========================================================================== Coq case files
 
 CASE_HEADER = """From Coq Require Import NArith List Bool String Ascii.
-From IRV Require Import Base.Exn C10.Model.
+From IRV Require Import Base.Exn C10.Model C10.CallModel Gen.C10Gen.
 Import ListNotations.
+(* call structure extracted from the source vs the events observed in one call: (method id, trace) *)
+Definition meth (i : N) : stm :=
+  match i with 0%%N => m_numpy | 1%%N => m_array | 2%%N => m_tobytes | 3%%N => m_tofile | _ => ed_to_memory end.
+Definition cagree (r : N * list cev) : bool := accepts (meth (fst r)) (snd r).
 Definition s (x : string) : str := map (fun a => N.of_nat (nat_of_ascii a)) (list_ascii_of_string x).
 Definition kf := %d%%nat.
 Definition pf := %d%%nat.
@@ -991,6 +995,16 @@ def world_text(root, snap, results, fr, kr, idx) -> str:
         croot = o[0]["root"] if o else root
         terms.append(hcase_term(c, o, croot, names, names[id(o[0]["snap"])] if o else fsname))
     t.append(f"Definition hcases{idx} : list hcase := [\n  " + ";\n  ".join(terms) + "].")
+    crows = []
+    mid = {"numpy": 0, "array": 1, "tobytes": 2, "tofile": 3, "serialize": 4}
+    for c, o, _ in results:
+        for op, st in zip(c["ops"], o):
+            if op[0] in mid:
+                evs = ["ECheckOk" if e[3] == "ok" else "ECheckRaise" for e in st["events"] if e[0] == "C"] if False else \
+                    [("ECheckOk" if e[3] == "ok" else "ECheckRaise") if e[0] == "C" else "EOpen"
+                     for e in st["events"] if e[0] in ("C", "O")]
+                crows.append(f"({cN(mid[op[0]])}, {clist(evs)})")
+    t.append(f"Definition crows{idx} : list (N * list cev) := {clist(crows)}.")
     rows = []
     for f, cwd, a, b, e in fr:
         rows.append(f"({cN(f)}, {fsname}, {c_rpath(os.path.join(root, cwd))}, {s_lit(a)}, {s_lit(b)}, {s_lit(e)})")
@@ -1040,7 +1054,8 @@ def batch_text(batch: list) -> str:
         text += world_text(root, snap, results, fr, kr, idx)
         text += (f"Eval vm_compute in (failing hagree hcases{idx}).\n"
                  f"Eval vm_compute in (failing fagree frows{idx}).\n"
-                 f"Eval vm_compute in (failing kagree krows{idx}).\n")
+                 f"Eval vm_compute in (failing kagree krows{idx}).\n"
+                 f"Eval vm_compute in (failing cagree crows{idx}).\n")
     return text
 
 
@@ -1053,10 +1068,10 @@ def eval_worlds(ck, batch: list, tag: str, text: str | None = None) -> list:
     if rc != 0:
         raise RuntimeError(f"case file {tag} did not compile:\n{out[-3000:]}")
     lists = re.findall(r"=\s*(\[[^\]]*\]|nil)", out)
-    if len(lists) != 3 * len(batch):
-        raise RuntimeError(f"case file {tag}: expected {3 * len(batch)} result lists, got {len(lists)}:\n{out[-2000:]}")
+    if len(lists) != 4 * len(batch):
+        raise RuntimeError(f"case file {tag}: expected {4 * len(batch)} result lists, got {len(lists)}:\n{out[-2000:]}")
     parsed = [[] if l == "nil" else [int(x) for x in re.findall(r"\d+", l)] for l in lists]
-    return [tuple(parsed[3 * i:3 * i + 3]) for i in range(len(batch))]
+    return [tuple(parsed[4 * i:4 * i + 4]) for i in range(len(batch))]
 
 
 # =========================================================================== onnx_ir.load
@@ -1394,7 +1409,9 @@ def run(ck) -> None:
                        "only directories, regular files and symlinks under the model directory"]
     ck.coverage["rule"] = ("nontrivial = a history step whose check passed the lexical layer and was decided by realpath / "
                            "st_nlink / open (i.e. reached symlink, hard-link or kernel resolution), or a load() spelling")
+    generate(ck)
     ck.prove()
+    ck.prove("C10/Calls")
     tracer = Tracer()
     tracer.install()
     ensure_audit()
@@ -1482,8 +1499,17 @@ def _run(ck, tracer: Tracer) -> None:
         if isinstance(res, RuntimeError):
             ck.broken("correspondence:case-file", str(res))
             continue
-        for (idx, root, snap, results, fr, kr), (hf, ff, kf) in zip(b, res):
+        for (idx, root, snap, results, fr, kr), (hf, ff, kf, cf_) in zip(b, res):
             ntraces += len(results)
+            ck.hist("function_rows", "call-structure trace acceptance",
+                    sum(1 for c, o, _ in results for op in c["ops"] if op[0] in OPS))
+            if cf_:
+                flat = [(c, op, st) for c, o, _ in results for op, st in zip(c["ops"], o) if op[0] in OPS]
+                for j in cf_[:3]:
+                    c, op, st = flat[j]
+                    ck.broken("correspondence:call-structure",
+                              json.dumps({"kind": "history", "case": c, "plan": plans.get(idx), "op": op,
+                                          "events_not_a_trace_of_the_extracted_method": st["events"]}, default=str))
             for j in hf[:3]:
                 c, o, bad = results[j]
                 ck.broken("correspondence:ExternalTensor-history",
@@ -1550,3 +1576,278 @@ def _account(ck, c: dict, obs: list) -> None:
     if len(ck.coverage["samples"]) < 5 and any(e[0] == "R" for o in obs for e in o["events"]):
         ck.sample({"cwd": c["cwd"], "base": c["base"], "loc": c["loc"], "ops": c["ops"],
                    "impl": [[o["events"], [o["res"][0], repr(o["res"][1])]] for o in obs]})
+
+
+# =========================================================================== call structure (fail-closed ast extraction)
+
+import ast as _ast
+
+CORE_SRC = os.path.join(REPO, "src", "onnx_ir", "_core.py")
+ED_SRC = os.path.join(REPO, "src", "onnx_ir", "external_data.py")
+PATH_CONSUMERS = {"open", "fromfile", "memmap", "load", "loadtxt", "copyfile", "copy", "copy2", "sendfile",
+                  "read_bytes", "read_text", "mmap", "Path", "FileIO", "BufferedReader", "fopen", "readinto"}
+PATH_FIELDS = {"_base_dir", "_location"}
+SKIP_METHODS = {"__init__", "path", "base_dir", "location", "_check_path_containment"}
+
+
+class CallUnsupported(Exception):
+    pass
+
+
+def _is_self_attr(n, names=None):
+    return isinstance(n, _ast.Attribute) and isinstance(n.value, _ast.Name) and n.value.id == "self" \
+        and (names is None or n.attr in names)
+
+
+def _mentions_path(n) -> bool:
+    return any(_is_self_attr(x, {"path"} | PATH_FIELDS) for x in _ast.walk(n))
+
+
+def _callee_name(c: _ast.Call) -> str:
+    f = c.func
+    return f.id if isinstance(f, _ast.Name) else (f.attr if isinstance(f, _ast.Attribute) else "?")
+
+
+class _MethodTranslator:
+    """One method body -> stm term.  Everything that is not recognised and mentions self.path / base_dir /
+    location, an open-like call, or a call of a method that (transitively) does, is rejected."""
+
+    def __init__(self, cls: _ast.ClassDef):
+        self.cls = cls
+        self.methods = {f.name: f for f in cls.body if isinstance(f, _ast.FunctionDef)
+                        and not any(isinstance(d, _ast.Attribute) and d.attr == "setter" for d in f.decorator_list)}
+        self.dirty = self._dirty_closure()
+
+    def _direct_dirty(self, f) -> bool:
+        for n in _ast.walk(f):
+            if _is_self_attr(n, {"path"}) or (_is_self_attr(n, PATH_FIELDS) and isinstance(n.ctx, _ast.Store)):
+                return True
+            if isinstance(n, _ast.Call):
+                if _is_self_attr(n.func, {"_check_path_containment"}):
+                    return True
+                if _callee_name(n) in PATH_CONSUMERS and any(_mentions_path(a) for a in n.args + [k.value for k in n.keywords]):
+                    return True
+                if isinstance(n.func, _ast.Name) and n.func.id == "open":
+                    return True
+        return False
+
+    def _dirty_closure(self) -> set:
+        dirty = {m for m, f in self.methods.items() if m not in SKIP_METHODS and self._direct_dirty(f)}
+        changed = True
+        while changed:
+            changed = False
+            for m, f in self.methods.items():
+                if m in dirty or m in SKIP_METHODS:
+                    continue
+                for n in _ast.walk(f):
+                    if isinstance(n, _ast.Call) and _is_self_attr(n.func) and n.func.attr in dirty:
+                        dirty.add(m)
+                        changed = True
+                        break
+        return dirty
+
+    # ---- expressions: must be free of anything interesting
+    def clean_expr(self, e, where: str, allow_path_in_message=False):
+        if e is None:
+            return
+        for n in _ast.walk(e):
+            if _is_self_attr(n, {"path"}) and not allow_path_in_message:
+                raise CallUnsupported(f"{where}: self.path used outside open(self.path, 'rb') / an error message: {_ast.unparse(e)[:80]}")
+            if isinstance(n, _ast.Call):
+                if _is_self_attr(n.func) and (n.func.attr in self.dirty or n.func.attr == "_check_path_containment"):
+                    raise CallUnsupported(f"{where}: call of {n.func.attr} inside an expression: {_ast.unparse(e)[:80]}")
+                if isinstance(n.func, _ast.Name) and n.func.id == "open":
+                    raise CallUnsupported(f"{where}: open() inside an expression: {_ast.unparse(e)[:80]}")
+                if _callee_name(n) in PATH_CONSUMERS and any(_mentions_path(a) for a in n.args + [k.value for k in n.keywords]):
+                    raise CallUnsupported(f"{where}: path consumer {_callee_name(n)} on the tensor's path: {_ast.unparse(e)[:80]}")
+            if isinstance(n, (_ast.Lambda, _ast.NamedExpr)) and _mentions_path(n):
+                raise CallUnsupported(f"{where}: {type(n).__name__} mentioning the path")
+
+    def seq(self, stmts, where) -> str:
+        raw = [self.stmt(s, where) for s in stmts]
+        parts = []
+        for p_ in raw:          # consecutive skips collapse into one (a skip is still a point where a raise can end the run)
+            if p_ == "SSkip" and parts and parts[-1] == "SSkip":
+                continue
+            parts.append(p_)
+        if not parts:
+            return "SSkip"
+        out = parts[-1]
+        for p in reversed(parts[:-1]):
+            out = f"(SSeq {p} {out})"
+        return out
+
+    def stmt(self, s, where) -> str:
+        if isinstance(s, _ast.Expr):
+            v = s.value
+            if isinstance(v, _ast.Constant):
+                return "SSkip"
+            if isinstance(v, _ast.Call) and _is_self_attr(v.func):
+                if v.func.attr == "_check_path_containment" and not v.args and not v.keywords:
+                    return "SCheck"
+                if v.func.attr in self.dirty:
+                    for a in v.args + [k.value for k in v.keywords]:
+                        self.clean_expr(a, where)
+                    return f"(SCall m_{_coq_name(v.func.attr)})"
+            self.clean_expr(v, where)
+            return "SSkip"
+        if isinstance(s, _ast.With):
+            opens = 0
+            for it in s.items:
+                c = it.context_expr
+                if isinstance(c, _ast.Call) and isinstance(c.func, _ast.Name) and c.func.id == "open":
+                    ok = (len(c.args) == 2 and _is_self_attr(c.args[0], {"path"}) and isinstance(c.args[1], _ast.Constant)
+                          and c.args[1].value == "rb" and not c.keywords)
+                    if not ok:
+                        raise CallUnsupported(f"{where}: open() not of the form open(self.path, 'rb'): {_ast.unparse(c)}")
+                    opens += 1
+                else:
+                    self.clean_expr(c, where)
+            body = self.seq(s.body, where)
+            for _ in range(opens):
+                body = f"(SSeq SOpen {body})"
+            return body
+        if isinstance(s, _ast.If):
+            self.clean_expr(s.test, where)
+            return f"(SIf {self.seq(s.body, where)} {self.seq(s.orelse, where)})"
+        if isinstance(s, _ast.Return):
+            self.clean_expr(s.value, where)
+            return "SRet"
+        if isinstance(s, _ast.Raise):
+            self.clean_expr(s.exc, where, allow_path_in_message=True)
+            self.clean_expr(s.cause, where, allow_path_in_message=True)
+            return "SRaise"
+        if isinstance(s, _ast.Assert):
+            self.clean_expr(s.test, where)
+            return "SSkip"
+        if isinstance(s, (_ast.Assign, _ast.AugAssign, _ast.AnnAssign)):
+            targets = s.targets if isinstance(s, _ast.Assign) else [s.target]
+            self.clean_expr(s.value, where)
+            mut = any(_is_self_attr(x, PATH_FIELDS) for t in targets for x in _ast.walk(t))
+            return "SMut" if mut else "SSkip"
+        if isinstance(s, (_ast.While, _ast.For)):
+            self.clean_expr(s.test if isinstance(s, _ast.While) else s.iter, where)
+            return f"(SSeq (SLoop {self.seq(s.body, where)}) {self.seq(s.orelse, where)})"
+        if isinstance(s, _ast.Try):
+            body = self.seq(s.body, where)
+            if any(k in body for k in ("SCheck", "SOpen", "SMut", "SCall", "SRet")):
+                raise CallUnsupported(f"{where}: try body with check/open/call/return is outside the supported shape")
+            hs = "SSkip"
+            for h in s.handlers:
+                hs = f"(SIf {self.seq(h.body, where)} {hs})"
+            return f"(SSeq {body} (SSeq {hs} (SSeq {self.seq(s.orelse, where)} {self.seq(s.finalbody, where)})))"
+        if isinstance(s, (_ast.Pass, _ast.Break, _ast.Continue, _ast.Delete, _ast.Global, _ast.Nonlocal)):
+            if isinstance(s, (_ast.Break, _ast.Continue)):
+                return "SSkip"      # loops are "zero or more iterations of the body": an early exit is a prefix of one
+            return "SSkip"
+        # anything else must not mention anything interesting at all
+        dump = _ast.unparse(s)
+        for n in _ast.walk(s):
+            if _is_self_attr(n, {"path"} | PATH_FIELDS) or (isinstance(n, _ast.Call) and (
+                    (isinstance(n.func, _ast.Name) and n.func.id == "open") or
+                    (_is_self_attr(n.func) and (n.func.attr in self.dirty or n.func.attr == "_check_path_containment")))):
+                raise CallUnsupported(f"{where}: unsupported statement {type(s).__name__}: {dump[:80]}")
+        return "SSkip"
+
+
+def _coq_name(m: str) -> str:
+    return m.strip("_").replace("__", "_") or "anon"
+
+
+def extract_calls() -> str:
+    """Gen/C10Gen.v: the call structure of every ExternalTensor method that can reach the data file, and of the
+    external_data helpers that read external tensors."""
+    with open(CORE_SRC, encoding="utf-8") as f:
+        core = _ast.parse(f.read())
+    cls = next(n for n in core.body if isinstance(n, _ast.ClassDef) and n.name == "ExternalTensor")
+    tr = _MethodTranslator(cls)
+    # setters other than base_dir must not touch the path fields
+    for f in cls.body:
+        if isinstance(f, _ast.FunctionDef) and any(isinstance(d, _ast.Attribute) and d.attr == "setter" for d in f.decorator_list):
+            if f.name != "base_dir" and any(_is_self_attr(n, PATH_FIELDS) for n in _ast.walk(f)):
+                raise CallUnsupported(f"setter {f.name} touches base_dir/location")
+    # dependency order
+    order, seen = [], set()
+
+    def visit(m, stack=()):
+        if m in seen:
+            return
+        if m in stack:
+            raise CallUnsupported(f"recursive call structure through {m}")
+        for n in _ast.walk(tr.methods[m]):
+            if isinstance(n, _ast.Call) and _is_self_attr(n.func) and n.func.attr in tr.dirty and n.func.attr != m:
+                visit(n.func.attr, stack + (m,))
+        seen.add(m)
+        order.append(m)
+    for m in sorted(tr.dirty):
+        visit(m)
+    lines = ["(* GENERATED by harness/props/c10.py (extract_calls) from /repo/src/onnx_ir/_core.py and external_data.py",
+             "   on every run — do not edit.  Call structure of every ExternalTensor method that can reach the data file. *)",
+             "From Coq Require Import List.", "From IRV Require Import C10.CallModel.", "Import ListNotations.", ""]
+    for m in order:
+        body = tr.seq(tr.methods[m].body, f"ExternalTensor.{m}")
+        lines.append(f"Definition m_{_coq_name(m)} : stm := {body}.")
+    # ---- external_data.py: how the conversion helpers read an external tensor
+    with open(ED_SRC, encoding="utf-8") as f:
+        ed = _ast.parse(f.read())
+    path_uses = []
+    for fn in _ast.walk(ed):
+        if isinstance(fn, (_ast.FunctionDef, _ast.AsyncFunctionDef)):
+            for n in _ast.walk(fn):
+                if isinstance(n, _ast.Attribute) and n.attr == "path" and not (isinstance(n.value, _ast.Name) and n.value.id == "os"):
+                    path_uses.append((fn.name, n))
+                if isinstance(n, _ast.Call):
+                    nm = _callee_name(n)
+                    if nm in ("fromfile", "memmap", "loadtxt", "read_bytes", "mmap") or (nm == "load" and isinstance(n.func, _ast.Attribute)
+                                                                                         and isinstance(n.func.value, _ast.Name) and n.func.value.id in ("np", "numpy")):
+                        raise CallUnsupported(f"external_data.{fn.name}: direct file read {nm}(): {_ast.unparse(n)[:80]}")
+                    if isinstance(n.func, _ast.Name) and n.func.id == "open":
+                        mode = n.args[1].value if len(n.args) > 1 and isinstance(n.args[1], _ast.Constant) else None
+                        if mode not in ("wb", "r+b", "w+b", "ab"):
+                            raise CallUnsupported(f"external_data.{fn.name}: open() that is not a destination write: {_ast.unparse(n)[:80]}")
+    # the only allowed use of <tensor>.path: as an argument of _paths_refer_to_same_file (os.path.samefile: stat only)
+    allowed = 0
+    for fn in _ast.walk(ed):
+        name_only = isinstance(fn, _ast.Call) and (
+            (isinstance(fn.func, _ast.Name) and fn.func.id == "_paths_refer_to_same_file") or
+            # os.path.<f>(tensor.path): operations on the NAME (realpath/samefile/exists...), no byte is read
+            (isinstance(fn.func, _ast.Attribute) and _ast.unparse(fn.func.value) == "os.path"))
+        if name_only:
+            allowed += sum(1 for a in fn.args if isinstance(a, _ast.Attribute) and a.attr == "path")
+    uniq = {}
+    for u in path_uses:
+        uniq.setdefault(id(u[1]), u)
+    real_uses = [u for u in uniq.values() if not (isinstance(u[1].value, _ast.Attribute) and u[1].value.attr == "path")]
+    if len(real_uses) != allowed:
+        raise CallUnsupported("external_data.py uses <tensor>.path outside _paths_refer_to_same_file()/os.path.*(): " +
+                              ", ".join(sorted({u[0] for u in real_uses})))
+    # which tensor methods the helpers call
+    def tensor_calls(fname: str) -> list:
+        fn = next(n for n in _ast.walk(ed) if isinstance(n, _ast.FunctionDef) and n.name == fname)
+        out = []
+        for n in _ast.walk(fn):
+            if isinstance(n, _ast.Call) and isinstance(n.func, _ast.Attribute) and isinstance(n.func.value, _ast.Name) \
+                    and n.func.value.id == "tensor" and n.func.attr in tr.methods:
+                out.append(n.func.attr)
+        return out
+    for fname, coq in (("_external_tensor_to_memory_tensor", "ed_to_memory"), ("_write_tensor_at", "ed_write_tensor_at")):
+        calls = [c for c in tensor_calls(fname) if c in tr.dirty]
+        if not calls:
+            raise CallUnsupported(f"external_data.{fname} no longer reads the tensor through its methods")
+        term = "SSkip"
+        for c in calls:
+            term = f"(SIf (SCall m_{_coq_name(c)}) {term})"
+        lines.append(f"Definition {coq} : stm := {term}.")
+    names = [f"m_{_coq_name(m)}" for m in order] + ["ed_to_memory", "ed_write_tensor_at"]
+    lines.append("Definition reading_methods : list stm := " + clist(names) + ".")
+    return "\n".join(lines) + "\n", names
+
+
+def generate(ck) -> bool:
+    try:
+        text, names = extract_calls()
+    except (CallUnsupported, SyntaxError, OSError, StopIteration) as e:
+        ck.gen_failed("C10Gen", e)
+        return False
+    ck.gen("C10Gen", text)
+    return True
